@@ -944,13 +944,13 @@ def pytype_of(x):
     if vt is not None:
         return vt
     t = getattr(x, "pytype", None)
-    if t is not None and isinstance(x, (SymInt, SymFloat, SymComplex, SymOpaque)):
+    if t is not None and isinstance(x, (SymInt, SymFloat, SymComplex, SymOpaque, SymStr)):
         return t
     return type(x)
 
 
 def is_proxy(x):
-    return isinstance(x, (SymInt, SymFloat, SymComplex, SymOpaque, SymBool))
+    return isinstance(x, (SymInt, SymFloat, SymComplex, SymOpaque, SymBool, SymStr))
 
 
 # ---------------------------------------------------------------------------------------
